@@ -7,18 +7,29 @@ import (
 
 // TimeOfDay returns the current time as a system.Time object.
 func TimeOfDay(ctx *expr.Context, input system.Collection, args ...expr.Expression) (system.Collection, error) {
-	timeString := ctx.Now.Format("15:04:05.000")
-	return system.Collection{system.MustParseTime(timeString)}, nil
+	// the clock value is caller-supplied (OverrideTime): a reading the System types cannot hold
+	// (year outside 0001-9999, offset of a day or more) is an error, not a panic
+	timeOfDay, err := system.ParseTime(ctx.Now.Format("15:04:05.000"))
+	if err != nil {
+		return nil, err
+	}
+	return system.Collection{timeOfDay}, nil
 }
 
 // Today returns the current date as a system.Date object.
 func Today(ctx *expr.Context, input system.Collection, args ...expr.Expression) (system.Collection, error) {
-	dateString := ctx.Now.Format("2006-01-02")
-	return system.Collection{system.MustParseDate(dateString)}, nil
+	today, err := system.ParseDate(ctx.Now.Format("2006-01-02"))
+	if err != nil {
+		return nil, err
+	}
+	return system.Collection{today}, nil
 }
 
 // Now returns the current time as a system.DateTime object.
 func Now(ctx *expr.Context, input system.Collection, args ...expr.Expression) (system.Collection, error) {
-	dateTimeString := ctx.Now.Format("2006-01-02T15:04:05.000Z07:00")
-	return system.Collection{system.MustParseDateTime(dateTimeString)}, nil
+	now, err := system.ParseDateTime(ctx.Now.Format("2006-01-02T15:04:05.000Z07:00"))
+	if err != nil {
+		return nil, err
+	}
+	return system.Collection{now}, nil
 }
